@@ -392,6 +392,8 @@ func (g *gen) families18() {
 			g.bytesCase("fault-free", b, nil, nil, rd, "")
 		}
 	}
+	g.rawCase("fault-free", "missing file", nil, "file-missing", true, "the model file is not there")
+	g.rawCase("fault-free", "directory", nil, "file-dir", true, "the path names a directory")
 	// H. arbitrary short byte strings, exhaustively: length 0, 1 and 2
 	g.rawCase("arbitrary", "len0", []byte{}, "bytes", true, "")
 	for a := 0; a < 256; a++ {
